@@ -165,6 +165,18 @@ Definition read_bs (pre l tail : bits) : res bs :=
   | (_, Panic p) => Panic p
   end.
 
+(* bits behind the length through the exported On(n): write [l] into
+   NewBitString(|l| + |tail|), then switch on the positions |l| + i for every 1
+   of [tail] -- len is untouched (after the repair of ReadBits this, and writing
+   into Buffer(), are the public ways to get junk behind the length) *)
+Fixpoint set_ons (pos : nat) (tail : bits) (s : bs) : bs :=
+  match tail with
+  | [] => s
+  | b :: t => set_ons (S pos) t (if b then fst (set_bit pos true s) else s)
+  end.
+Definition on_bs (l tail : bits) : bs :=
+  set_ons (length l) tail (fst (write_bits l (new_bs (length l + length tail)))).
+
 (* a design that pads by rounding the length up to a multiple of 4 instead of
    writing the zero bits (kept for Proofs/C20History.v): it shows whatever the
    buffer holds behind the length *)
